@@ -4,7 +4,7 @@ CONFIG = {
     "streams": [{
         "name": "bcl.fmt", "harness": "bclh", "driver": "drv_bcl",
         "env": {"BCL_STREAM": "fmt", "BCL_SHARDS": "16"},
-        "n": {"quick": 16 * 12000, "thorough": 16 * 100000, "search": 16 * 6000},
+        "n": {"quick": 16 * 12000, "thorough": 16 * 60000, "search": 16 * 6000},
         "shards": {"quick": 16, "thorough": 16, "search": 16},
         "flush": True, "crash_signature": "fmt-crash-or-timeout",
         "timeout_s": 3000, "driver_timeout_s": 3000,
